@@ -32,6 +32,7 @@ ASSUMPTIONS = [
     "ideal networks (props/_ideal.py) in place of trained weights; frames reach the consumer through a pre-filled frame buffer (the reader side is C13's subject)",
     "frame alphabet: 0,1,2,3 animals; frames 0,1 are 2/3 the size of frames 2,3 and size matching brings them to the same network input, so eff_scale differs between batch-mates; video_idx 0 for frames 0,2 and 1 for frames 1,3",
     "tiny bottom-up family (32x48 frames, PAF stride 8 -> 4x6x4 PAF grid, edges longer than max_edge_length_ratio x image size so the distance penalty is active): every ordered selection from a 2-frame alphabet as one batch of 7 (quick) / 5..9 (thorough) frames - batches larger than every PAF-grid axis",
+    "centroid-gt configuration: top-down with only a centroid model (FindInstancePeaksGroundTruth); the frames carry <= 2 labelled instances (frame 3 shows a third, unlabelled animal: more detected centroids than instance slots)",
     "B = 3 (quick) / 4 (thorough); every selection of B >= 2 frames is additionally run as consecutive batches of size B-1 through the same predictor / inference-model instance (batch-size independence and state carried between batches)",
 ]
 
@@ -108,6 +109,13 @@ def make_frames(model, tiny=False):
             "video_idx": torch.tensor(k % 2, dtype=torch.int32),
             "orig_size": torch.Tensor([H, W]),
         }
+        if model == "centroid-gt":
+            # the labels hold at most TWO instances per frame (frame 3 shows a third, unlabelled animal: more detected
+            # centroids than instance slots), NaN-padded to two slots as LabelsReader does
+            lab = np.full((1, 2, 3, 2), np.nan, dtype=np.float32)
+            for j, po in enumerate(animals[:2]):
+                lab[0, j] = po
+            item["instances"] = torch.from_numpy(lab)
         frames.append({"item": item, "animals": animals, "hw": (H, W)})
     return frames, a
 
@@ -138,6 +146,10 @@ def make_predictor(cfg, batch, a):
         p = I.topdown_predictor(3, 0, 1.0, 1.0, 16, 16, 2, 2, 1.5, CROP, (IN_H, IN_W), ref, batch, sk, max_instances=mi)
         p.inference_model.centroid_crop.torch_model.link = 2.6 * a
         pc = {"scale": 1.0, "max_stride": 16}
+    elif model == "centroid-gt":
+        p = I.topdown_centroid_only_predictor(0, 1.0, 16, 2, 1.5, (IN_H, IN_W), ref, batch, sk, max_instances=mi)
+        p.inference_model.centroid_crop.torch_model.link = 2.6 * a
+        pc = {"scale": 1.0, "max_stride": 16}
     elif cfg.get("tiny"):
         p = I.bottomup_predictor(3, [(0, 1), (0, 2)], 1.0, 16, 2, 8, 1.5, 10.0, 2.6 * a, (TINY_H, TINY_W), ref, batch, sk, max_instances=mi)
         pc = {"scale": 1.0, "max_stride": 16}
@@ -158,6 +170,14 @@ def per_frame(model, outs):
             for fi, vi, pk, pv, bb, cv in zip(o["frame_idx"], o["video_idx"], o["pred_instance_peaks"], o["pred_peak_values"], o["instance_bbox"], o["centroid_val"]):
                 pk = np.asarray(pk, dtype=np.float64) + np.asarray(bb, dtype=np.float64).reshape(-1, 2)[0]
                 recs.append((int(fi), int(vi), [(np.round(pk, 3).tolist(), np.round(np.asarray(pv, dtype=np.float64), 4).tolist(), round(float(cv), 4))]))
+        elif model == "centroid-gt":
+            # one row per frame: (max_inst, nodes, 2) labelled instances matched to the detected centroids, NaN-padded;
+            # the values come flattened as (frames * max_inst, nodes)
+            pks = np.asarray(o["pred_instance_peaks"], dtype=np.float64)
+            pvs = np.asarray(o["pred_peak_values"], dtype=np.float64).reshape(pks.shape[0], pks.shape[1], -1)
+            for i, (fi, vi) in enumerate(zip(o["frame_idx"], o["video_idx"])):
+                lst = [(np.round(pks[i, j], 3).tolist(), np.round(np.nan_to_num(pvs[i, j], nan=-1.0), 4).tolist(), 0.0) for j in range(pks.shape[1]) if not np.isnan(pks[i, j]).all()]
+                recs.append((int(fi), int(vi), lst))
         elif model == "single":
             for fi, vi, pk, pv in zip(o["frame_idx"], o["video_idx"], o["pred_instance_peaks"], o["pred_peak_values"]):
                 recs.append((int(fi), int(vi), [(np.round(np.asarray(pk, dtype=np.float64), 3).tolist(), np.round(np.asarray(pv, dtype=np.float64), 4).tolist(), 0.0)]))
@@ -262,6 +282,8 @@ def check_cfg(part, cfg, bmax, only_b=None, only_first=None):
             if (n_expected[k] == 0) != empty or len(alone[k]) != 1:
                 part.violation({"cfg": cfg, "batch": [k]}, f"alone-run of frame {k} ({n_expected[k]} animals) returns {alone[k]}")
             continue
+        if cfg["model"] == "centroid-gt":
+            want = min(n_expected[k], 2)  # at most two animals are labelled
         if len(alone[k]) != want:
             part.violation({"cfg": cfg, "batch": [k]}, f"alone-run of frame {k} ({n_expected[k]} animals) returns {len(alone[k])} instances, expected {want}")
     for b in range(1, bmax + 1):
@@ -388,6 +410,8 @@ def configs():
                 if model == "single" and mi is not None:
                     continue
                 out.append({"model": model, "refinement": ref, "max_instances": mi})
+    # top-down with ONLY a centroid model: detected centroids are matched to the frame's own labelled instances
+    out.append({"model": "centroid-gt", "refinement": None, "max_instances": None})
     return out
 
 
